@@ -136,6 +136,15 @@ class Check:
         if sub == "list":
             case["variant"] = rng.choice(["plain", "plain", "where", "order", "limit", "where_limit", "order_limit"])
             case["N"] = rng.randint(1, 12)
+            if case["variant"] == "plain" and rng.random() < 0.3:
+                # a password-protected member that is not the last one: it cannot be opened (its own row is optional),
+                # the members stored after it are listed all the same
+                for n in world["nodes"]:
+                    ms = n.get("zip", {}).get("members", []) if "zip" in n else []
+                    cand = [m for m in ms[:-1] if not m["name"].endswith("/")]
+                    if cand:
+                        rng.choice(cand)["encrypted"] = True
+                        break
         elif sub == "flip":
             case["bitseed"] = rng.getrandbits(30)
             case["target"] = rng.choice(arcs)
@@ -180,6 +189,7 @@ class Check:
         """Expected (path, name, size, is_dir, modified, mode-or-None) for every member of every searched archive."""
         out = []
         sources = []
+        self._optional = set()  # rows of members that cannot be opened: allowed, not required
         for n in world["nodes"]:
             if n["type"] == "file" and "zip" in n and is_zip_name(n["path"].rsplit("/", 1)[-1], exts) and "trunc" not in n and not n.get("flip"):
                 sources.append((n["path"], n))
@@ -204,6 +214,8 @@ class Check:
                         pb = [b"false", b"false", b"false"]
                     else:
                         pb = [None, None, None]
+                    if m.get("encrypted"):
+                        self._optional.add(lz("[%s] %s" % (apath, m["name"])))
                     out.append((lz("[%s] %s" % (apath, m["name"])), lz("[%s] %s" % (apath.rsplit("/", 1)[-1], m["name"])),
                                 str(size).encode(), b"true" if isdir else b"false", ("%04d-%02d-%02d %02d:%02d:%02d" % tuple(d)).encode(), mode.encode() if mode else None, pb[0], pb[1], pb[2]))
         return out
@@ -304,6 +316,9 @@ class Check:
             # members: each exactly once, with the stored attributes
             want = collections.Counter(m[0] for m in members)
             got = collections.Counter(r[0] for r in member1)
+            for o_ in self._optional:
+                if o_ not in got:
+                    del want[o_]
             if want != got:
                 viols.append(Violation(PROP, "C19.members", ["C19.members", "missing" if (want - got) else "extra_or_duplicate", var],
                                        {"query": q1, "missing": [b2s(x) for x in list((want - got).elements())[:4]], "extra": [b2s(x) for x in list((got - want).elements())[:4]]}))
@@ -345,6 +360,9 @@ class Check:
                     rows_a = [r[0] for r in ra.rows(1)]
                     want_m = collections.Counter(m[0] for m in members if m[0].startswith(lz_path("[" + with_arc + "/")))
                     got_m = collections.Counter(r for r in rows_a if r.startswith(b"["))
+                    for o_ in self._optional:
+                        if o_ in want_m and o_ not in got_m:
+                            del want_m[o_]
                     got_o = collections.Counter(r for r in rows_a if not r.startswith(b"["))
                     if got_m != want_m or got_o != collections.Counter(r[0] for r in rb.rows(1)):
                         viols.append(Violation(PROP, "C19.members", ["C19.members", "option_of_one_root_leaks_or_is_lost", "mixed_roots"],
